@@ -76,6 +76,11 @@ def gmatch : List GTok → Text → Bool
 def inRange (lo hi : Option Text) (lox hix : Bool) (x : Text) : Bool :=
   Cmp.le (cmpStart lo lox) ⟨.val x, 0⟩ && Cmp.le ⟨.val x, 0⟩ (cmpEnd hi hix)
 
+/-- Term `x` is one of the terms `TermRange._btexts` yields: in the range, and not the empty term when
+    the start is open (`None`) and exclusive. -/
+def inRangeQ (lo hi : Option Text) (lox hix : Bool) (x : Text) : Bool :=
+  inRange lo hi lox hix x && !(lo == none && lox && x == [])
+
 /-- The words `ws` follow position `p`, each 1..slop positions after the previous one
     (`Phrase` = `SpanNear2(ordered=True, mindist=1)`). -/
 def chainFrom (toks : List Text) (slop : Nat) : Nat → List Text → Bool
@@ -93,14 +98,17 @@ def sat (env : Env) : Q → Doc → Bool
   | .every none _, _ => true
   | .every (some f) _, d => hasField d f
   | .term f t _, d => (d.toks f).contains t
-  -- multi-term queries never look at the empty term (`MultiTerm.matcher`: `if word`);
+  -- multi-term queries look at every term their `_btexts` yields, the empty term included
+  -- (`MultiTerm.matcher` with the `fix:` "no longer skips the empty term");
   -- `Prefix("")` and `Wildcard("*")` are compiled as `Every(fieldname)`
-  | .pre f t _ _, d => if t = [] then hasField d f else (d.toks f).any fun x => x != [] && t.isPrefixOf x
+  | .pre f t _ _, d => if t = [] then hasField d f else (d.toks f).any fun x => t.isPrefixOf x
   | .wild f t _ _, d =>
     if t = [starC] then hasField d f
-    else (d.toks f).any fun x => x != [] && gmatch (parseGlob env.bracket t) x
-  | .multi k f t key _, d => (d.toks f).any fun x => x != [] && env.multi k f t key x
-  | .range f lo hi lx hx _ _, d => (d.toks f).any fun x => x != [] && inRange lo hi lx hx x
+    else (d.toks f).any fun x => gmatch (parseGlob env.bracket t) x
+  | .multi k f t key _, d => (d.toks f).any fun x => env.multi k f t key x
+  -- `TermRange._btexts` starts its scan at `b""` when `start is None` and skips a first term equal to
+  -- the start when `startexcl` is set: an exclusive open start leaves the empty term out
+  | .range f lo hi lx hx _ _, d => (d.toks f).any fun x => inRangeQ lo hi lx hx x
   | .phrase f ws slop _, d => phraseMatch (d.toks f) slop ws
   | .comp .and qs _, d => !qs.isEmpty && satAll env qs d
   | .comp .or qs _, d => satAny env qs d
@@ -126,8 +134,25 @@ end
 /-- The answer of a query on the index of `env`: the ids of the satisfying documents. -/
 def answer (env : Env) (q : Q) : List Nat := (env.index.filter (sat env q)).map (·.id)
 
-/-- A document without the empty term and with all terms below `u"￿"` (what the two
-    documented shortcuts of `TermRange.normalize`/`Wildcard.normalize` silently assume). -/
+/-- A document without the empty term. -/
+def Doc.NoEmpty (d : Doc) : Prop := ∀ f, ∀ x ∈ d.toks f, x ≠ []
+
+/-- A document with all terms below `u"￿"` (what the shortcut `end == u"￿"` of
+    `TermRange.normalize` silently assumes). -/
+def Doc.BelowMax (d : Doc) : Prop := ∀ f, ∀ x ∈ d.toks f, x < maxText
+
+/-- A document without the empty term and with all terms below `u"￿"`. -/
 def Doc.Plain (d : Doc) : Prop := ∀ f, ∀ x ∈ d.toks f, x ≠ [] ∧ x < maxText
+
+theorem Doc.Plain.noEmpty {d : Doc} (h : d.Plain) : d.NoEmpty := fun f x hx => (h f x hx).1
+theorem Doc.Plain.belowMax {d : Doc} (h : d.Plain) : d.BelowMax := fun f x hx => (h f x hx).2
+
+/-- A range with an exclusive start that is open (`None`) or the empty string: the one kind of leaf on
+    which the empty term still matters (`TermRange.normalize` turns `{ TO ...]` into `Every(f)`, and the
+    comparables of `overlaps/merge` forget the exclusion of an open start). -/
+def _root_.WM.Normalize.Rng.openExcl (r : Rng) : Bool := r.lox && (r.lo == none || r.lo == some [])
+
+/-- The empty term is harmless for range `r` on document `d`. -/
+def ROk (d : Doc) (r : Rng) : Prop := r.openExcl = false ∨ d.NoEmpty
 
 end WM.Sat
